@@ -23,7 +23,8 @@ def _ort_run(model_proto, feeds, extra_outputs=()):
     so.graph_optimization_level = ort.GraphOptimizationLevel.ORT_DISABLE_ALL
     sess = ort.InferenceSession(m.SerializeToString(), so, providers=["CPUExecutionProvider"])
     names = [o.name for o in sess.get_outputs()]
-    return dict(zip(names, sess.run(None, feeds)))
+    wanted = {i.name for i in sess.get_inputs()}      # an unused, non-positional input may legitimately have been pruned
+    return dict(zip(names, sess.run(None, {k: v for k, v in feeds.items() if k in wanted})))
 
 
 def _declared(model_proto):
@@ -693,3 +694,105 @@ def C05_custom_names_family():
 
 
 ALL["C05_custom_names_family"] = C05_custom_names_family
+
+
+# --------------------------------------------------------------------------- T12 / T13 / T14 and the shape-propagation passes
+def C02_misc_rewrites_family(include_not_true=False, only_dropout=False):
+    """Mul*Sigmoid -> Swish (opset 24; x the same value or not, operand order, the Sigmoid output also observed, the Mul
+    output a graph output, opset 23 = no rewrite), Mul(o, Div(1, Sqrt(s))) (env-gated rewrite: must not fire by default),
+    Dropout with training_mode = Not(True constant) / constant False / a graph input (ratio constant), with the Not output
+    also observed, and elementwise chains with missing declarations for the two shape-propagation passes: each pass alone
+    and the whole optimize_graph pipeline must change no output and leave no false declaration."""
+    from onnx import helper, TensorProto, numpy_helper
+    rng = np.random.default_rng(9)
+    n = 0
+    F = TensorProto.FLOAT
+
+    def model(nodes, ins, outs, inits=(), vis=(), opset=24):
+        g = helper.make_graph(nodes, "g", ins, outs, initializer=list(inits), value_info=list(vis))
+        m = helper.make_model(g, opset_imports=[helper.make_opsetid("", opset)])
+        m.ir_version = 10
+        return m
+
+    def whole(irm):
+        from jax2onnx.converter import ir_optimizations as opt
+        opt.optimize_graph(irm)
+
+    cases = []
+    x_in = [helper.make_tensor_value_info("x", F, [2, 3])]
+    xy_in = x_in + [helper.make_tensor_value_info("w", F, [2, 3])]
+    # --- Swish
+    for opset in (24, 23):
+        for order in ("xs", "sx"):
+            for other in ("same", "different"):
+                for variant in ("plain", "sigmoid_observed", "mul_is_output"):
+                    a = "x" if other == "same" else "w"
+                    nodes = [helper.make_node("Sigmoid", ["x"], ["s"], name="sig"),
+                             helper.make_node("Mul", ([a, "s"] if order == "xs" else ["s", a]), ["m"], name="mul"),
+                             helper.make_node("Neg", ["m"], ["y"], name="tail")]
+                    outs = [helper.make_tensor_value_info("y", F, [2, 3])]
+                    if variant == "sigmoid_observed":
+                        outs.append(helper.make_tensor_value_info("s", F, [2, 3]))
+                    if variant == "mul_is_output":
+                        outs.append(helper.make_tensor_value_info("m", F, [2, 3]))
+                    vis = [helper.make_tensor_value_info("s", F, [2, 3]), helper.make_tensor_value_info("m", F, [2, 3])]
+                    cases.append((f"Mul({order},{other}) Sigmoid [{variant}] opset {opset}", model(nodes, xy_in, outs, vis=vis, opset=opset), "rewrite_mul_sigmoid_as_swish_ir", {"x": (2, 3), "w": (2, 3)}, opset == 24))
+    # --- rsqrt (gate off by default)
+    one = numpy_helper.from_array(np.asarray(1.0, np.float32), "one")
+    nodes = [helper.make_node("Abs", ["x"], ["a"], name="abs"), helper.make_node("Sqrt", ["a"], ["q"], name="sqrt"), helper.make_node("Div", ["one", "q"], ["r"], name="div"),
+             helper.make_node("Mul", ["w", "r"], ["y"], name="mul")]
+    cases.append(("Mul(w, Div(1, Sqrt(|x|)))", model(nodes, xy_in, [helper.make_tensor_value_info("y", F, [2, 3])], inits=[one]), "rewrite_mul_rsqrt_as_div_ir", {"x": (2, 3), "w": (2, 3)}, True))
+    # --- Dropout
+    ratio = numpy_helper.from_array(np.asarray(0.5, np.float32), "ratio")
+    tru = numpy_helper.from_array(np.asarray(True), "tru")
+    fal = numpy_helper.from_array(np.asarray(False), "fal")
+    for tm in (("not_true", "const_false", "graph_input") if include_not_true else ("const_false", "graph_input")):
+        for variant in ("plain", "not_observed"):
+            if variant == "not_observed" and tm != "not_true":
+                continue
+            nodes, inits, ins = [], [ratio], list(x_in)
+            if tm == "not_true":
+                nodes.append(helper.make_node("Not", ["tru"], ["tm"], name="not"))
+                inits.append(tru)
+            elif tm == "const_false":
+                inits.append(numpy_helper.from_array(np.asarray(False), "tm"))
+            else:
+                ins.append(helper.make_tensor_value_info("tm", TensorProto.BOOL, []))
+            nodes += [helper.make_node("Dropout", ["x", "ratio", "tm"], ["d"], name="drop"), helper.make_node("Neg", ["d"], ["y"], name="tail")]
+            outs = [helper.make_tensor_value_info("y", F, [2, 3])]
+            if variant == "not_observed":
+                outs.append(helper.make_tensor_value_info("tm", TensorProto.BOOL, []))
+            cases.append((f"Dropout(training_mode={tm}) [{variant}]", model(nodes, ins, outs, inits=inits, opset=21), "inline_dropout_training_mode_constants_ir", {"x": (2, 3), "tm": ()}, True))
+    # --- shape propagation: declarations missing on intermediates, broadcasting binary ops, size-1 constants of higher rank
+    c111 = numpy_helper.from_array(np.full((1, 1, 1), 0.5, np.float32), "c111")
+    c3 = numpy_helper.from_array(rng.standard_normal((3,)).astype(np.float32), "c3")
+    for body in ([("Relu", ["x"], "a"), ("Add", ["a", "c111"], "b"), ("Tanh", ["b"], "y")],
+                 [("Mul", ["x", "c3"], "a"), ("Cast", ["a"], "b"), ("Sub", ["b", "w"], "y")],
+                 [("Add", ["c111", "x"], "a"), ("Max", ["a", "w"], "y")]):
+        nodes = []
+        for k, (op, ins_, out) in enumerate(body):
+            attrs = {"to": F} if op == "Cast" else {}
+            nodes.append(helper.make_node(op, ins_, [out], name=f"n{k}", **attrs))
+        rank3 = any("c111" in ins_ for _, ins_, _ in body)
+        outs = [helper.make_tensor_value_info("y", F, [1, 2, 3] if rank3 else [2, 3])]
+        for pname in ("propagate_elementwise_shapes_ir", "propagate_unary_shapes_ir"):
+            cases.append((f"{[op for op, _, _ in body]} with undeclared intermediates through {pname}", model(nodes, xy_in, outs, inits=[c111, c3], opset=21), pname, {"x": (2, 3), "w": (2, 3)}, True))
+    if only_dropout:
+        cases = [c for c in cases if c[2] == "inline_dropout_training_mode_constants_ir"]
+    for what, m, pname, feed_shapes, runs_whole in cases:
+        used = {i.name for i in m.graph.input}
+        feeds = {k: (rng.standard_normal(shp).astype(np.float32) if k != "tm" else np.asarray(False)) for k, shp in feed_shapes.items() if k in used}
+        for runner, rname in ((_single(pname), pname),) + (((whole, "optimize_graph"),) if runs_whole else ()):
+            import onnx
+            m2 = onnx.ModelProto()
+            m2.CopyFrom(m)
+            ok, detail = check_pass(m2, runner, feeds, f"{what} through {rname}")
+            if ok is False:
+                return False, detail
+            n += 1 if ok else 0
+    return True, f"{n} graphs through the Swish / rsqrt / Dropout / shape-propagation passes unchanged and truthfully annotated"
+
+
+ALL["C02_misc_rewrites_family"] = C02_misc_rewrites_family
+# known finding D27: Dropout(training_mode = Not(constant True)) - the rewritten node reads a value that is neither initializer nor node output
+ALL["D27_dropout_not_true"] = lambda: C02_misc_rewrites_family(include_not_true=True, only_dropout=True)
